@@ -154,6 +154,9 @@ func (c *connRun) dial(late bool) bool {
 		tc.SetReadBuffer(32 << 10)
 	}
 	cr.log.Fill(ph, "c", c.k, cr.c.TLS)
+	if cr.tracker != nil {
+		cr.tracker.bind(conn.LocalAddr().String(), c.k) // what is scripted for the proxy's end of this socket
+	}
 	c.cl = &rig.Client{Conn: conn, BR: bufio.NewReaderSize(conn, 64<<10)}
 	if cr.c.PP && c.sc.Phase != "pphello" {
 		c.proxyHeader()
